@@ -159,7 +159,7 @@ def history(rnd, length):
             mode = rnd.choice(["internal", "deprecated", "none", "deactivate"])
             failing = mode in ("internal", "deprecated")
             ops.append(fail(mode))
-        elif x < 0.98:
+        elif x < 0.97:
             ops.append(describe(T))
         else:
             ops.append(clear(T))
